@@ -68,6 +68,8 @@ type invIn struct {
 	Kind  string `json:"kind,omitempty"`  // how an attempt fails: "500" | "reset"
 	Idle  int    `json:"idle,omitempty"`  // ms between the extension's GET /next and the invocation
 	Multi bool   `json:"multi,omitempty"` // datapoints in one datagram (else one datagram each)
+	HK    int    `json:"hk,omitempty"`    // datapoints POSTed one by one to the extension's HTTP ingestion (/v2/raw), each acknowledged (202) before the next
+	Last  int    `json:"last,omitempty"`  // size (series) of one last HTTP batch; runtimeDone is sent immediately after its 202
 	Hold  int    `json:"hold,omitempty"`  // ms the function keeps running after its datapoints were accepted, before it returns
 }
 
@@ -80,6 +82,9 @@ type input struct {
 	MaxElapMs int     `json:"maxelap"`            // forwarder max-request-elapsed-time in ms (0 = 1ns: no retries)
 	Slots     int     `json:"slots"`              // consolidator slots = parsers
 	Compress  bool    `json:"compress"`
+	HTTP      bool    `json:"http,omitempty"`    // enable the statsd server's HTTP ingestion (http-servers) in the extension
+	BG        int     `json:"bg,omitempty"`      // background function goroutines POSTing batches for the whole run
+	BGSize    int     `json:"bgsize,omitempty"`  // series per background batch
 	RegLat    int     `json:"reglat,omitempty"`  // ms the fake Runtime API takes to answer /register
 	SubLat    int     `json:"sublat,omitempty"`  // ms it takes to answer the telemetry subscription
 	FlushMs   int     `json:"flushms,omitempty"` // http-transport.flush-interval in ms (0 = default 1 s); README: not respected in manual-flush mode
@@ -238,6 +243,35 @@ func freeAddr() (string, net.Listener) {
 
 func dpID(inv, j int) int { return inv*1000 + j }
 
+const bgBase = 100000 // ids of background HTTP batches
+
+// httpBody is a /v2/raw body: the series c20.d<id> plus [filler] series c20.f<i>.  Serialised maps
+// concatenate (protobuf merges repeated map entries), so the filler part is built once per size.
+var fillerMu sync.Mutex
+var fillerCache = map[int][]byte{}
+
+func httpBody(id, filler int) []byte {
+	one := func(name string) *pb.CounterTagV2 {
+		return &pb.CounterTagV2{TagMap: map[string]*pb.RawCounterV2{"": {Value: 1}}}
+	}
+	head, _ := proto.Marshal(&pb.RawMessageV2{Counters: map[string]*pb.CounterTagV2{dpName(id): one("")}})
+	if filler <= 0 {
+		return head
+	}
+	fillerMu.Lock()
+	fb, ok := fillerCache[filler]
+	if !ok {
+		m := &pb.RawMessageV2{Counters: make(map[string]*pb.CounterTagV2, filler)}
+		for i := 0; i < filler; i++ {
+			m.Counters["c20.f"+strconv.Itoa(i)] = one("")
+		}
+		fb, _ = proto.Marshal(m)
+		fillerCache[filler] = fb
+	}
+	fillerMu.Unlock()
+	return append(append([]byte{}, head...), fb...)
+}
+
 func dpName(id int) string { return "c20.d" + strconv.Itoa(id) }
 
 type result struct {
@@ -279,6 +313,9 @@ func runScenario(in input) (res result) {
 			lg.add(ev{K: "upbad"})
 		}
 		for name := range msg.GetCounters() {
+			if strings.HasPrefix(name, "c20.f") {
+				continue // filler series of an HTTP batch: the batch is identified by its one c20.d series
+			}
 			if v, err := strconv.Atoi(strings.TrimPrefix(name, "c20.d")); err == nil {
 				ids = append(ids, v)
 			} else {
@@ -292,7 +329,7 @@ func runScenario(in input) (res result) {
 		// the script is chosen by the youngest invocation present in the body (0 = start-up POST)
 		sc := 0
 		for _, v := range ids {
-			if v/1000 > sc {
+			if v < bgBase && v/1000 > sc {
 				sc = v / 1000
 			}
 		}
@@ -442,6 +479,16 @@ func runScenario(in input) (res result) {
 		ht["dynamic-headers"] = in.Hdr
 	}
 	v.Set("http-transport", ht)
+	ingAddr := ""
+	if in.HTTP {
+		portMu.Lock()
+		a, l := freeAddr()
+		l.Close()
+		portMu.Unlock()
+		ingAddr = a
+		v.Set("http-servers", []string{"ing"})
+		v.Set("http.ing", map[string]interface{}{"address": ingAddr, "enable-ingestion": true, "enable-healthcheck": false})
+	}
 	if len(in.Hdr) > 0 {
 		v.Set("dynamic-header", []string{}) // what cmd/lambda-extension/main.go NewServer does to "disable" them (nothing reads this key)
 	}
@@ -558,6 +605,62 @@ func runScenario(in input) (res result) {
 		}
 		unacked = nil
 		return true
+	}
+	ingClient := &http.Client{Timeout: waitLimit, Transport: &http.Transport{MaxIdleConnsPerHost: 16}}
+	// postHTTP: one function POST to the extension's /v2/raw; the datapoint counts as accepted when the
+	// 202 has been received (logged after it)
+	postHTTP := func(id, filler int) bool {
+		body := httpBody(id, filler)
+		lg.add(ev{K: "send", N: id})
+		for try := 0; ; try++ {
+			resp, err := ingClient.Post("http://"+ingAddr+"/v2/raw", "application/x-protobuf", bytes.NewReader(body))
+			if err != nil {
+				if strings.Contains(err.Error(), "connection refused") && try < 500 {
+					time.Sleep(2 * time.Millisecond)
+					continue
+				}
+				return false
+			}
+			io.Copy(io.Discard, resp.Body)
+			resp.Body.Close()
+			if resp.StatusCode != http.StatusAccepted {
+				return false
+			}
+			lg.add(ev{K: "ack", N: id})
+			return true
+		}
+	}
+	var bgWG sync.WaitGroup
+	bgStop := make(chan struct{})
+	var bgSeq int64
+	stopBG := func() {
+		select {
+		case <-bgStop:
+		default:
+			close(bgStop)
+		}
+		bgWG.Wait()
+	}
+	defer stopBG()
+	startBG := func() {
+		for g := 0; g < in.BG; g++ {
+			bgWG.Add(1)
+			go func() {
+				defer bgWG.Done()
+				for {
+					select {
+					case <-bgStop:
+						return
+					default:
+					}
+					id := bgBase + int(atomic.AddInt64(&bgSeq, 1))
+					if !postHTTP(id, in.BGSize) {
+						return
+					}
+					time.Sleep(time.Millisecond)
+				}
+			}()
+		}
 	}
 	teleClient := &http.Client{Timeout: waitLimit}
 	postTele := func(recs []int) bool {
@@ -707,6 +810,9 @@ func runScenario(in input) (res result) {
 		finish(false)
 		return
 	}
+	if in.HTTP && in.BG > 0 {
+		startBG()
+	}
 	for i, iv := range in.Invs {
 		n := i + 1
 		if iv.Idle > 0 {
@@ -736,6 +842,20 @@ func runScenario(in input) (res result) {
 		if !waitAck() {
 			finish(false)
 			return
+		}
+		if in.HTTP {
+			for j := 0; j < iv.HK; j++ {
+				if !postHTTP(dpID(n, 600+j), 0) {
+					res.infra = "HTTP ingestion did not accept a datapoint"
+					finish(false)
+					return
+				}
+			}
+			if iv.Last > 0 && !postHTTP(dpID(n, 900), iv.Last) {
+				res.infra = "HTTP ingestion did not accept the last batch"
+				finish(false)
+				return
+			}
 		}
 		if iv.Hold > 0 {
 			time.Sleep(time.Duration(iv.Hold) * time.Millisecond)
@@ -775,6 +895,7 @@ func runScenario(in input) (res result) {
 			return
 		}
 	}
+	stopBG()
 	waitAck()
 	select {
 	case release <- nextEv{shutdown: true}:
@@ -1022,6 +1143,15 @@ func genCase(r *hlib.Rand, k int, tier string) input {
 		in.MaxElapMs = hlib.Pick(r, []int{60, 120})
 	case k%10 == 6:
 		in.Stream = "latedata"
+	case k%12 == 5:
+		// function goroutines POST to the extension's HTTP ingestion during the invocation; the last,
+		// large batch is acknowledged immediately before runtimeDone; background batches keep coming
+		in.Stream = "httpdata"
+		in.HTTP = true
+		in.Compress = false
+		in.Slots = hlib.Pick(r, []int{2, 4, 8})
+		in.BG = r.Range(2, 4)
+		in.BGSize = hlib.Pick(r, []int{2000, 5000, 10000})
 	case k%10 == 2 || k%10 == 7:
 		// invocations that outlast the forwarder's flush interval: nothing may be flushed or notified
 		// without a runtimeDone (README: flush-interval is not respected in manual-flush mode)
@@ -1070,6 +1200,14 @@ func genCase(r *hlib.Rand, k int, tier string) input {
 			iv.Idle = r.Range(1, 15)
 		}
 		switch in.Stream {
+		case "httpdata":
+			iv.K = r.Range(0, 2)
+			iv.HK = r.Range(2, 8)
+			iv.Pre, iv.Extra = 0, 0 // runtimeDone goes out right after the last 202
+			if r.Chance(3, 4) {
+				iv.Last = hlib.Pick(r, []int{5000, 20000, 50000})
+			}
+			iv.Lat = r.Range(0, 5)
 		case "longinv":
 			if iv.K == 0 && r.Chance(2, 3) {
 				iv.K = r.Range(1, 3)
